@@ -222,9 +222,9 @@ func VerifC08Two() {
 	c08Run(c08Opts{steps: 2, kinds: 2, maxRuns: 6, strobe: true})
 }
 
-// VerifC08Full: scripts of 1-3 steps incl. PurgeCache, two cached children, timer, Stop.
+// VerifC08Full: scripts of 1-2 steps incl. PurgeCache, timer, strobe or invalidate, Stop.
 func VerifC08Full() {
-	c08Run(c08Opts{steps: 3, kinds: 3, maxRuns: 8, timer: true, twoKeys: true, strobe: true, stop: true})
+	c08Run(c08Opts{steps: 2, kinds: 3, maxRuns: 8, timer: true, strobe: true, stop: true})
 }
 
 func VerifC08Witness() {
